@@ -65,7 +65,7 @@ class C18(Prop):
         ("lib/python/pyflyby/_importdb.py", "ImportDB._from_data"),
         ("bin/transform-imports", None),
     ]
-    quick_cases = 6000
+    quick_cases = 4500
     thorough_cases = 60000
     quick_deadline_s = 55
     thorough_deadline_s = 600
@@ -403,9 +403,10 @@ class C18(Prop):
             if obs["dbmap"] != [list(e) for e in self.effective_map(case)]:
                 return "ImportMap iteration order/content: impl=%r expected=%r" % (obs["dbmap"], self.effective_map(case))
         r = resps[0]
-        if "err" in obs:
-            # the only modelled outcome is success; pretty-printing errors belong to other properties
+        if obs.get("blocks_out") is None:
+            # failed before the block loop finished (parse errors): not modelled
             return None
+        # (an error raised later, while pretty-printing, belongs to other properties; the blocks are still compared)
         got = self._canon_blocks(obs["blocks_out"])
         want = self._canon_blocks(r["ok"])
         if got != want:
